@@ -25,8 +25,10 @@ import itertools
 import multiprocessing
 import sys
 
-if '/repo' not in sys.path:
-    sys.path.insert(0, '/repo')
+import os as _os
+_REPO = _os.environ.get('PYVC_REPO', '/repo')
+if _REPO not in sys.path:
+    sys.path.insert(0, _REPO)
 
 from bounded._api import Bounded, REPLAY_HEADER
 from bounded import c03_common as cm
